@@ -34,6 +34,7 @@ package keys
 //@   modifies nothing
 //@   ensures[nonnil] err == nil ==> r != nil && s != nil
 //@   ensures[value]  err == nil ==> SigWellFormed(sig) && G_bigval(r) == Parse36(SplitBar(sig)[0]) && G_bigval(s) == Parse36(SplitBar(sig)[1])
+//@   ensures[complete] SigWellFormed(sig) ==> err == nil
 
 //@ func ToPublicKey(pub []byte) *ecdsa.PublicKey
 //@   safety on
